@@ -24,7 +24,7 @@ TRUSTED_BASE = [
     "Coq 8.16.1 kernel (coqc, full .vo build; vm_compute used for finite sweeps and witnesses; no native_compute)",
     "no axioms: every property theorem is 'Closed under the global context' (checked from Print Assumptions output on each run)",
     "hand-written Gallina model of go/mcap, go/ros and python/mcap (coq/theories/*.v), tied to /repo by differential execution on each run",
-    "translators: tools/gotrans (Go AST) + tools/gen_layout.py regenerate Layout_gen.v (record read/write layouts of parse.go and writer.go), tools/gotrans/decisions.go + tools/gen_decisions.py regenerate DecisionsR_gen.v / DecisionsW_gen.v (28 boolean decisions of the readers, read options and writer), and tools/common.py / tools/gen_c17.py regenerate Consts_gen.v / Vectors_gen.v on each run; LayoutTie.v, DecisionTieR.v, DecisionTieW.v, ConstsTie.v and properties/C17.v are re-proved against them",
+    "translators: tools/gotrans (Go AST) + tools/gen_layout.py regenerate Layout_gen.v (record read/write layouts of parse.go and writer.go), tools/gotrans/decisions.go + tools/gen_decisions.py regenerate DecisionsR_gen.v / DecisionsW_gen.v / DecisionsL_gen.v (41 boolean decisions of the readers, read options, writer and lexer), and tools/common.py / tools/gen_c17.py regenerate Consts_gen.v / Vectors_gen.v on each run; LayoutTie.v, DecisionTieR.v, DecisionTieW.v, DecisionTieL.v, ConstsTie.v and properties/C17.v are re-proved against them",
     "extraction: ExtrOcamlBasic only (bool, option, unit, list, prod, sumbool, sumor; andb/orb inlined); N, Z, positive, nat, Byte.byte extracted as inductives",
     "hand-written OCaml driver (ocaml/*.ml, zarith for decimal I/O), OCaml 4.13.1",
     "Go harness (harness/*.go, build tag verif; a -race build for C13), tools/py_harness.py driving python/mcap, and Python generators/comparators/oracles (tools/*.py)",
